@@ -15,10 +15,20 @@ interleaved with PatchedCounts.set_patch_pair; the result must satisfy the Coq m
 the set_patch_pair calls define (Model/Estimators.v: run_calls, c04_hist_case; Props: C04_sample_after_history), be
 bit-identical to the result on a freshly built equal container, and the stored arrays (snapshots taken by copy) must
 be bit-unchanged after every single call.
+(d) magnitudes: the same comparisons (fresh containers, n(z), normalisation, call histories, files) on inputs whose
+normalised terms are far from 1 - total weights of 2^20..2^40 or 2^-30..2^-8 per sample with small dyadic counts (terms of
+1e-25..1e+24), the scales mixed per bin and per pair-count member, survey-like consistent scales (randoms denser than
+data), a common power-of-two factor on all counts, exact-zero counts of one member (rr, dr, rd, dd) in some bins but not
+all or in all bins; all scales are powers of two, so the float64 sums stay exact and the Q model is compared as before.
+The estimator must depend only on which members are present (Props: C04_ls_for_any_rr, C04_estimate_scale_invariant,
+C04_threshold_fallback_refuted); a value that is the estimator for absent rr although rr is present is reported as such
+(Model: ignores_rr, c04_corr_case_x bit 4).
 (b) symbolic traces of landy_szalay, davis_peebles, NormalisedCounts.sample_patch_sum,
 RedshiftData.from_corrdata, HistData.normalised, RedshiftData.normalised are re-proved equal to
 the documented formulas by `ring` (numerator / denominator / radicand separately) on every run.
 """
+import math
+
 import numpy as np
 
 from lib import floatq as fq
@@ -44,7 +54,9 @@ ASSUMPTIONS = [
 RULE = ("cases = (subset of dr/rd/rr, auto|cross, bins, patches, all array entries) for estimators; triple of CorrFuncs for "
         "n(z); (container kind, binning, data, samples) for normalisation; distinct by all entries; non-trivial when every "
         "denominator is non-zero so that the full formula is compared (for 'raises' cases: always); history cases are "
-        "additionally distinct by the list of calls made before the compared call")
+        "additionally distinct by the list of calls made before the compared call; magnitude cases (kind label .../mag:<profile>) "
+        "are the same kinds of case on power-of-two scaled arrays, the histogram rr-magnitude/* says which decades of the "
+        "normalised rr were reached")
 
 
 def est_defined(sub):
@@ -63,7 +75,13 @@ def h_corr(ctx):
         if not est_defined(sub):
             ctx.disagree("c04_corr_case:model-expects-raise", case, dict(code=c, replay=replay))
             return
-        if c & 2:
+        if c & 16:
+            ctx.fail("c04-estimator-choice-depends-on-values", "CorrFunc.sample().data for dd+{%s}: random-random counts are present "
+                     "(normalised rr per bin: %s) but the value is not (DD-DR-RD+RR)/RR; it is the estimator applied when rr is "
+                     "absent (DD/RD-1 resp. DD/DR-1) in every bin where that is defined: the choice of estimator depends on the "
+                     "values of the pair counts, not only on which are present (code %d)"
+                     % (",".join(sub), rr_terms_text(replay), c), replay, case=case)
+        elif c & 2:
             ctx.fail("c04-estimator-value", "CorrFunc.sample().data is not the documented estimator of total/(W1*W2) terms for "
                      "dd+{%s} (code %d)" % (",".join(sub), c), replay, case=case)
         if c & 4:
@@ -107,8 +125,8 @@ def h_hist(ctx):
             ctx.fail("c04-state-after-history", "after the calls [%s] the arrays stored in the CorrFunc are not the ones its "
                      "constructor arguments and set_patch_pair calls define (Model: run_calls)" % calls_text(replay["history"]),
                      replay, case=case)
-        if c & 7:
-            base(c & 7, case, replay)
+        if c & 23:
+            base(c & 23, case, replay)
     return h
 
 
@@ -148,9 +166,10 @@ def case_corr(ctx, batch, spec):
         raised = type(e).__name__
         impl = "None"
         full = True
-    batch.add("c04_corr_case %s %s" % (jk.corr_args(spec), impl), h_corr(ctx), dict(kind="corr", spec=spec, raised=raised))
+    batch.add("c04_corr_case_x %s %s" % (jk.corr_args(spec), impl), h_corr(ctx), dict(kind="corr", spec=spec, raised=raised))
     ctx.count(key=("corr", repr(spec)), nontrivial=full,
-              kind="corr/%s/%s%s" % ("auto" if auto else "cross", "+".join(sub), "/raises" if raised else ""))
+              kind="corr/%s/%s%s%s" % ("auto" if auto else "cross", "+".join(sub), "/raises" if raised else "", mag_suffix(spec)))
+    note_magnitudes(ctx, spec)
     if raised is None:
         ctx.sample(dict(kind="corr", subset=sub, auto=auto, data=np.asarray(cd.data).tolist()), limit=3)
         if not full:
@@ -167,7 +186,7 @@ def case_nz(ctx, batch, norm_batch, spec):
         return
     batch.add(jk.nz_term(dz, cross, ref, unk, nz), h_nz(ctx), dict(kind="nz", spec=spec))
     ctx.count(key=("nz", repr(spec)), nontrivial=jk.all_finite(nz.data),
-              kind="nz/%s%s" % ("ref" if ref is not None else "", "+unk" if unk is not None else ""))
+              kind="nz/%s%s%s" % ("ref" if ref is not None else "", "+unk" if unk is not None else "", mag_suffix(spec)))
     ctx.sample(dict(kind="nz", dz=[float(x) for x in dz], w_sp=np.asarray(cross.data).tolist(),
                     nz=np.asarray(nz.data).tolist()), limit=5)
     # the estimate, normalised
@@ -191,7 +210,8 @@ def norm_case_obj(ctx, batch, obj, hist, replay):
     with np.errstate(all="ignore"):
         norm = float(np.nansum(np.asarray(obj.binning.dz) * np.asarray(obj.data, dtype=float)))
     ctx.count(key=("norm", hist, repr(np.asarray(obj.data).tolist()), repr(np.asarray(obj.samples).tolist()),
-                   repr(list(obj.binning.edges))), nontrivial=norm != 0.0, kind="norm/%s" % ("hist" if hist else "nz"))
+                   repr(list(obj.binning.edges))), nontrivial=norm != 0.0,
+              kind="norm/%s%s" % ("hist" if hist else "nz", mag_suffix(replay.get("spec", {}))))
 
 
 def case_norm(ctx, batch, spec):
@@ -247,11 +267,13 @@ def case_corr_hist(ctx, batch, spec, hist, mode="direct"):
         ctx.fail("c04-sample-depends-on-call-history", "CorrFunc.sample() after the calls [%s]%s differs from sample() of a freshly "
                  "built CorrFunc with the same pair counts and weights: the estimate is not a function of the pair counts"
                  % (calls_text(hist), " (written to and re-read from a file)" if mode == "via_file" else ""), replay)
-    batch.add(jk.hist_case_term(spec["N"], kinds, run.done, jk.cf_state_plain(subject), impl), h_hist(ctx), replay)
+    term = jk.hist_case_term(spec["N"], kinds, run.done, jk.cf_state_plain(subject), impl)
+    assert term.startswith("c04_hist_case ")
+    batch.add("c04_hist_case_x " + term[len("c04_hist_case "):], h_hist(ctx), replay)
     sub = jk.subset_of(spec)
     ctx.count(key=("corr-hist", repr(spec), repr(hist), mode), nontrivial=full,
-              kind="corr-hist/%s/%s/%s%s" % ("auto" if kinds["dd"]["auto"] else "cross", "+".join(sub), mode,
-                                             "/raises" if cd is None else ""))
+              kind="corr-hist/%s/%s/%s%s%s" % ("auto" if kinds["dd"]["auto"] else "cross", "+".join(sub), mode,
+                                               "/raises" if cd is None else "", mag_suffix(spec)))
     if cd is not None:
         ctx.sample(dict(kind="corr-hist", subset=sub, history=calls_text(hist), mode=mode, data=np.asarray(cd.data).tolist()), limit=7)
 
@@ -302,7 +324,7 @@ def case_nz_hist(ctx, batch, spec, hist):
                  "built CorrFuncs with the same pair counts and weights" % calls_text(hist), replay)
     batch.add(jk.nz_term(list(fresh[0].binning.dz), fcd[0], fcd[1], fcd[2], nz), h_nz(ctx), replay)
     ctx.count(key=("nz-hist", repr(spec), repr(hist)), nontrivial=jk.all_finite(nz.data),
-              kind="nz-hist/%s%s" % ("ref" if fresh[1] is not None else "", "+unk" if fresh[2] is not None else ""))
+              kind="nz-hist/%s%s%s" % ("ref" if fresh[1] is not None else "", "+unk" if fresh[2] is not None else "", mag_suffix(spec)))
 
 
 def case_norm_hist(ctx, batch, spec, hist):
@@ -340,7 +362,8 @@ def case_norm_hist(ctx, batch, spec, hist):
     batch.add(term, h_norm(ctx), replay)
     with np.errstate(all="ignore"):
         norm = float(np.nansum(np.asarray(fresh.binning.dz) * np.asarray(fresh.data, dtype=float)))
-    ctx.count(key=("norm-hist", repr(spec), repr(hist)), nontrivial=norm != 0.0, kind="norm-hist/%s" % ("hist" if spec["hist"] else "nz"))
+    ctx.count(key=("norm-hist", repr(spec), repr(hist)), nontrivial=norm != 0.0,
+              kind="norm-hist/%s%s" % ("hist" if spec["hist"] else "nz", mag_suffix(spec)))
 
 
 def gen_nz_history(rng, spec, lo=1, hi=6):
@@ -376,19 +399,33 @@ def histories(ctx, b_hist, b_nzh, b_normh):
             then = "get_array" if name in jk.CF_DERIVING else None
             case_nz_hist(ctx, b_nzh, spec, [dict(jk.gen_cf_op(rng, spec[t], name=name, then=then), t=t)])
     case_nz_hist(ctx, b_nzh, spec, [dict(op="nz.from_corrfuncs3", t="cross")] * 2)
+    # magnitudes: all four pair counts far from 1, after one read-only call, sampled directly and through a file
+    for profile in ("tiny", "survey", "rr-zero-bins"):
+        for auto in (False, True):
+            spec = gen_corr_mag(rng, full, auto, small=True, profile=profile)
+            op = jk.gen_cf_op(rng, spec, name=rng.choice(["nc.get_array", "nc.sample_patch_sum", "cf.sample", "cf.to_dict"]))
+            case_corr_hist(ctx, b_hist, spec, [op], "via_file")
+            case_corr_hist(ctx, b_hist, spec, [op], "direct")
     # random sequences, interleaved with set_patch_pair; a quarter of them sampled through a file written afterwards
     small = not ctx.quick()
     for _ in range(ctx.n(40, 500)):
         sub = rng.choice(jk.SUBSETS)
-        spec = gen_corr(rng, sub, rng.random() < 0.5, small=True if ctx.quick() else rng.random() < 0.7)
-        hist = jk.gen_cf_history(rng, spec, allow_set=rng.random() < 0.5)
+        few = True if ctx.quick() else rng.random() < 0.7
+        if rng.random() < 0.35:
+            spec = gen_corr_mag(rng, sub, rng.random() < 0.5, small=few)
+        else:
+            spec = gen_corr(rng, sub, rng.random() < 0.5, small=few)
+        # set_patch_pair stores small dyadic numbers: next to counts scaled by 2^+-10.. the float sums would round
+        allow_set = rng.random() < 0.5 and not (spec.get("mag") or {}).get("counts_scaled")
+        hist = jk.gen_cf_history(rng, spec, allow_set=allow_set)
         case_corr_hist(ctx, b_hist, spec, hist, "via_file" if rng.random() < 0.25 else "direct")
     for _ in range(ctx.n(20, 250)):
-        spec = jk.gen_nz_spec(rng, ctx.quick() or (small and rng.random() < 0.7))
+        few = ctx.quick() or (small and rng.random() < 0.7)
+        spec = gen_nz_spec_mag(rng, few) if rng.random() < 0.3 else jk.gen_nz_spec(rng, few)
         case_nz_hist(ctx, b_nzh, spec, gen_nz_history(rng, spec))
     for _ in range(ctx.n(20, 250)):
         for hist_kind in (True, False):
-            spec = gen_norm(rng, hist_kind)
+            spec = gen_norm_mag(rng, hist_kind) if rng.random() < 0.3 else gen_norm(rng, hist_kind)
             B = len(spec["edges"]) - 1
             case_norm_hist(ctx, b_normh, spec, [jk.gen_sd_op(rng, B) for _ in range(rng.randint(1, 5))])
 
@@ -398,6 +435,182 @@ def gen_corr(rng, sub, auto, small=False):
     B, N = jk.pick_shape(rng, small)
     mode = rng.choice(["dense", "dense", "sparse", "dyadic", "binary"])
     return jk.corr_plain(jk.gen_binning(rng, B), N, jk.gen_corrfunc(rng, B, N, auto, mode, sub))
+
+
+# ----------------------------------------------------------------------------- magnitudes
+# Normalised terms are pair fractions: total pair count / product of total weights.  The generators above keep them
+# between 1e-3 and 1e+2.  Here counts and weights are multiplied by powers of two (exact in float64 and in Q), per bin
+# and per member, so that the terms lie anywhere between 1e-25 and 1e+24, and members get exact-zero counts.
+MAG_PROFILES = ("tiny", "small", "survey", "huge", "mixed", "scaled-counts", "rr-zero-bins", "member-zero")
+REGIONS = ("tiny", "small", "huge", "plain")
+
+
+def region_exps(rng, region):
+    """(counts, weights 1, weights 2) exponents of one bin of one pair-count member"""
+    if region == "tiny":      # total weights 2^20..2^40 in both samples, small dyadic counts: terms below 1e-9
+        return rng.choice([0, 0, 0, -4, 3]), rng.randint(20, 40), rng.randint(20, 40)
+    if region == "small":     # terms of 1e-12 .. 1e-3
+        tot = rng.randint(12, 36)
+        a = rng.randint(0, tot)
+        return 0, a, tot - a
+    if region == "huge":      # tiny weights: terms of 1e+5 .. 1e+24
+        return rng.choice([0, 0, 10]), rng.randint(-30, -8), rng.randint(-30, -8)
+    return 0, 0, 0
+
+
+def scale_pc(rng, p, exps, ragged=False):
+    """multiply bin b of the counts / weights of p by 2^exps[b][0..2]; weights shared by both samples of an
+    autocorrelation stay shared; ragged: the patches of a bin additionally differ by factors 2^0..2^6"""
+    same = bool(p["auto"]) and np.array_equal(p["w1"], p["w2"])
+    N = p["w1"].shape[1]
+    for b, (ec, e1, e2) in enumerate(exps):
+        p["counts"][b] *= math.ldexp(1.0, ec)
+        for w, e in ((p["w1"], e1), (p["w2"], e2)):
+            for i in range(N):
+                w[b, i] *= math.ldexp(1.0, e + (rng.randint(0, 6) if ragged else 0))
+    if same:
+        p["w2"] = p["w1"].copy()
+
+
+def zero_bins(rng, B, everywhere=False):
+    """a non-empty set of bins; a proper subset when there are two or more bins unless `everywhere`"""
+    if everywhere or B == 1:
+        return list(range(B))
+    bins = [b for b in range(B) if rng.random() < 0.5]
+    if not bins or len(bins) == B:
+        bins = sorted(rng.sample(range(B), rng.randint(1, B - 1)))
+    return bins
+
+
+def gen_corr_mag(rng, sub, auto, small=False, profile=None, shape=None, edges=None):
+    profile = profile or rng.choice(MAG_PROFILES)
+    B, N = shape or jk.pick_shape(rng, small)
+    if shape is None and B == 1 and profile in ("mixed", "rr-zero-bins"):
+        B = rng.choice([2, 3, 4])
+    mode = rng.choice(["dense", "dense", "sparse", "dyadic", "binary"])
+    d = jk.gen_corrfunc(rng, B, N, auto, mode, sub)
+    members = [k for k in jk.ALLK if d[k] is not None]
+    base = profile
+    if profile == "rr-zero-bins":
+        base = rng.choice(["tiny", "small", "mixed", "survey", "plain"])
+    elif profile == "member-zero":
+        base = rng.choice(["plain", "tiny", "small", "survey"])
+    exps = {k: [(0, 0, 0)] * B for k in members}
+    if base in ("tiny", "small", "huge"):
+        exps = {k: [region_exps(rng, base) for _ in range(B)] for k in members}
+    elif base == "mixed":           # every bin of every member in a region of its own
+        exps = {k: [region_exps(rng, rng.choice(REGIONS)) for _ in range(B)] for k in members}
+    elif base == "survey":          # one scale per catalog and bin, randoms denser than data
+        exps = {k: [] for k in members}
+        for _ in range(B):
+            eD1 = rng.randint(8, 30)
+            eD2 = eD1 if auto else rng.randint(8, 30)
+            eR1 = eD1 + rng.randint(0, 10)
+            eR2 = eR1 if auto else eD2 + rng.randint(0, 10)
+            for k, e in (("dd", (0, eD1, eD2)), ("dr", (0, eD1, eR2)), ("rd", (0, eR1, eD2)), ("rr", (0, eR1, eR2))):
+                if k in exps:
+                    exps[k].append(e)
+    elif base == "scaled-counts":   # a common factor of all normalised terms of a bin (C04_estimate_scale_invariant)
+        per_bin = [rng.choice([-1, 1]) * rng.randint(10, 60) for _ in range(B)]
+        exps = {k: [(e, 0, 0) for e in per_bin] for k in members}
+    ragged = base in ("tiny", "small", "survey") and rng.random() < 0.3
+    for k in members:
+        scale_pc(rng, d[k], exps[k], ragged)
+    zeroed = None
+    if profile in ("rr-zero-bins", "member-zero"):
+        if profile == "rr-zero-bins":
+            k = "rr" if "rr" in sub else rng.choice([m for m in members if m != "dd"])
+            bins = zero_bins(rng, B)
+        else:
+            k = rng.choice(members)
+            bins = zero_bins(rng, B, everywhere=rng.random() < 0.5)
+        for b in bins:
+            d[k]["counts"][b] = 0.0
+        zeroed = dict(member=k, bins=bins)
+    spec = jk.corr_plain(edges if edges is not None else jk.gen_binning(rng, B), N, d)
+    spec["mag"] = dict(profile=profile, base=base, ragged=ragged, zeroed=zeroed,
+                       counts_scaled=any(abs(e[0]) > 8 for k in members for e in exps[k]))
+    return spec
+
+
+def gen_nz_spec_mag(rng, small=False):
+    """jk.gen_nz_spec with the three CorrFuncs drawn from the magnitude profiles (one binning, one patch number)"""
+    B, N = jk.pick_shape(rng, small)
+    edges = jk.gen_binning(rng, B)
+    defined = [sb for sb in jk.SUBSETS if "dr" in sb or ("rr" not in sb)]
+
+    def one(auto):
+        return gen_corr_mag(rng, rng.choice(defined), auto, shape=(B, N), edges=edges)
+    return dict(cross=one(False), ref=one(True) if rng.random() < 0.7 else None, unk=one(True) if rng.random() < 0.5 else None,
+                mag=dict(profile="nz"))
+
+
+def gen_norm_mag(rng, hist):
+    """gen_norm with the data and the samples multiplied by one power of two, or by one power of two per bin"""
+    spec = gen_norm(rng, hist)
+    B = len(spec["edges"]) - 1
+    # histograms of weights are as small as the weights are (2^-30) and as large as the catalog is
+
+    def span():
+        return rng.choice([-1, 1]) * rng.randint(10, 40)
+    if rng.random() < 0.5:
+        exps = [span()] * B
+    else:
+        exps = [span() if rng.random() < 0.7 else 0 for _ in range(B)]
+    spec["data"] = [x * math.ldexp(1.0, e) for x, e in zip(spec["data"], exps)]
+    spec["samples"] = [[x * math.ldexp(1.0, e) for x, e in zip(row, exps)] for row in spec["samples"]]
+    spec["mag"] = dict(profile="norm", exps=exps)
+    return spec
+
+
+def mag_suffix(spec):
+    return "/mag:%s" % spec["mag"]["profile"] if spec.get("mag") else ""
+
+
+def rr_terms(spec):
+    """normalised rr per bin as the documentation defines it (total pair count / product of total weights, half the
+    squared total for an autocorrelation), in exact arithmetic; None where the denominator is zero or rr is absent"""
+    from fractions import Fraction
+    p = spec["kinds"].get("rr")
+    if p is None:
+        return None
+    out = []
+    for b in range(len(p["counts"])):
+        tot = sum(Fraction(x) for row in p["counts"][b] for x in row)
+        den = sum(Fraction(x) for x in p["w1"][b]) * sum(Fraction(x) for x in p["w2"][b])
+        if p["auto"]:
+            den = den / 2
+        out.append(None if den == 0 else tot / den)
+    return out
+
+
+def rr_terms_text(replay):
+    t = rr_terms(replay["spec"]) if replay.get("kind") in ("corr", "corr-hist") else None   # corr-hist: as constructed
+    return "-" if t is None else ", ".join("undefined" if x is None else "%.3g" % float(x) for x in t)
+
+
+def note_magnitudes(ctx, spec):
+    """evidence: which decades of the normalised rr (largest bin) the run reached, and zero patterns"""
+    t = rr_terms(spec)
+    if t is None:
+        return
+    vals = [abs(float(x)) for x in t if x is not None]
+    if not vals:
+        ctx.bump("rr-magnitude/undefined")
+        return
+    zeros = sum(1 for v in vals if v == 0.0)
+    if zeros == len(vals):
+        ctx.bump("rr-magnitude/zero-in-all-bins")
+        return
+    if zeros:
+        ctx.bump("rr-magnitude/zero-in-some-bins")
+    top = max(vals)
+    for name, lim in (("below-1e-16", 1e-16), ("1e-16..1e-12", 1e-12), ("1e-12..1e-8", 1e-8), ("1e-8..1e-4", 1e-4),
+                      ("1e-4..1e+4", 1e4), ("1e+4..1e+12", 1e12)):
+        if top < lim:
+            ctx.bump("rr-magnitude/largest-bin-%s" % name)
+            return
+    ctx.bump("rr-magnitude/largest-bin-above-1e+12")
 
 
 def gen_norm(rng, hist):
@@ -447,11 +660,27 @@ def run(ctx):
         for sub in jk.SUBSETS:
             for auto in (False, True):
                 case_corr(ctx, b_corr, gen_corr(rng, sub, auto, small and rng.random() < 0.7))
+    # magnitudes: every profile, auto and cross, once with Landy-Szalay defined (dr and rr present) and once with any members
+    with_rr = [sb for sb in jk.SUBSETS if "rr" in sb and "dr" in sb]
+    for rep in range(ctx.n(2, 30)):
+        for profile in MAG_PROFILES:
+            for auto in (False, True):
+                for sub in (rng.choice(with_rr), rng.choice(jk.SUBSETS)):
+                    case_corr(ctx, b_corr, gen_corr_mag(rng, sub, auto, small and rng.random() < 0.7, profile))
     for _ in range(ctx.n(40, 600)):
         case_nz(ctx, b_nz, b_norm, jk.gen_nz_spec(rng, small and rng.random() < 0.7))
+    for _ in range(ctx.n(14, 200)):     # n(z) of CorrFuncs of all magnitudes; the CorrFuncs themselves against the model
+        spec = gen_nz_spec_mag(rng, ctx.quick() or rng.random() < 0.7)
+        case_nz(ctx, b_nz, b_norm, spec)
+        for t in ("cross", "ref", "unk"):
+            if spec[t] is not None:
+                case_corr(ctx, b_corr, spec[t])
     for _ in range(ctx.n(40, 500)):
         case_norm(ctx, b_norm, gen_norm(rng, True))
         case_norm(ctx, b_norm, gen_norm(rng, False))
+    for _ in range(ctx.n(12, 150)):
+        case_norm(ctx, b_norm, gen_norm_mag(rng, True))
+        case_norm(ctx, b_norm, gen_norm_mag(rng, False))
     for i in range(ctx.n(6, 40)):        # histograms of real catalogs, normalised
         N, B = rng.choice([2, 3, 5]), rng.choice([1, 2, 3, 4])
         edges, rows, obs = jk.gen_hist_catalog(rng, N, B, weighted=True)
